@@ -1,12 +1,12 @@
 // replay for property C02
 // refuted obligation (Kani harness): algorithm::kalman::verif::c02_p_steer_frequency_clamped  [/verif/kani/ntp_proto/algorithm/kalman/mod.rs]
-// failed checks: NaN on division @ ntp-proto/src/algorithm/kalman/mod.rs:336
+// failed checks: assertion failed: f >= -max && f <= max @ /verif/kani/ntp_proto/algorithm/kalman/mod.rs:288
 // re-run natively against the real code:  /verif/check C02 --replay /verif/replays/C02-c02_p_steer_frequency_clamped.rs
 //meta {"property": "C02", "crate_dir": "ntp-proto", "harness": "algorithm::kalman::verif::c02_p_steer_frequency_clamped", "harness_file": "/verif/kani/ntp_proto/algorithm/kalman/mod.rs", "features": [], "transform": true, "c_ffi": false}
-// native replay: passed-natively
+// native replay: reproduced
 /// Test generated for harness `algorithm::kalman::verif::c02_p_steer_frequency_clamped` 
 ///
-/// Check for `cover`: "clamping reachable"
+/// Check for `assertion`: "assertion failed: f >= -max && f <= max"
 ///
 /// # Warning
 ///
@@ -20,36 +20,46 @@
 /// logic.
 
 #[test]
-fn kani_concrete_playback_c02_p_steer_frequency_clamped_2621350766895634398() {
+fn kani_concrete_playback_c02_p_steer_frequency_clamped_11247385996416321192() {
     let concrete_vals: Vec<Vec<u8>> = vec![
         // 18446744073709551615ul
         vec![255, 255, 255, 255, 255, 255, 255, 255],
-        // 0
-        vec![0],
-        // 0
-        vec![0],
-        // 0
-        vec![0],
-        // 0
-        vec![0],
-        // 0
-        vec![0],
+        // 1
+        vec![1],
+        // 9223372036854775807
+        vec![255, 255, 255, 255, 255, 255, 255, 127],
+        // 1
+        vec![1],
+        // 9223372036854775807
+        vec![255, 255, 255, 255, 255, 255, 255, 127],
+        // 1
+        vec![1],
+        // 9223372036854775807
+        vec![255, 255, 255, 255, 255, 255, 255, 127],
+        // 1
+        vec![1],
+        // 9223372036854775807
+        vec![255, 255, 255, 255, 255, 255, 255, 127],
+        // 1
+        vec![1],
+        // 9223372036854775807
+        vec![255, 255, 255, 255, 255, 255, 255, 127],
         // 255
         vec![255],
         // 1
         vec![1],
         // 9223372036854775807
         vec![255, 255, 255, 255, 255, 255, 255, 127],
-        // -1.844674e+19
-        vec![0, 0, 0, 0, 0, 0, 240, 195],
+        // 5.456968e-12
+        vec![7, 0, 0, 8, 0, 0, 152, 61],
         // -NaN
         vec![255, 255, 255, 255, 255, 255, 255, 255],
         // 1
         vec![1],
-        // 2.922856e+19
-        vec![0, 32, 205, 75, 11, 90, 249, 67],
-        // -2.584483
-        vec![0, 144, 230, 165, 5, 173, 4, 192],
+        // 4.775122e+307
+        vec![34, 186, 255, 255, 255, 255, 208, 127],
+        // -4.775122e+307
+        vec![33, 186, 255, 255, 255, 255, 208, 255],
         // 255
         vec![255],
         // 255
@@ -71,8 +81,6 @@ fn kani_concrete_playback_c02_p_steer_frequency_clamped_2621350766895634398() {
 }
 
 /* native run output:
-/x86_64-unknown-linux-gnu/debug/build/tokio/08901c66e86e93cd/out -L dependency=/verif/build/playback-x/x86_64-unknown-linux-gnu/debug/build/tokio-rustls/54d8ca3c8a7af86e/out -L dependency=/verif/build/playback-x/x86_64-unknown-linux-gnu/debug/build/tracing/5bb07173bbfece25/out -L dependency=/verif/build/playback-x/x86_64-unknown-linux-gnu/debug/build/tracing-core/8462334772d35f33/out -L dependency=/verif/build/playback-x/x86_64-unknown-linux-gnu/debug/build/typenum/4ef28bbd38ede6dd/out -L dependency=/verif/build/playback-x/x86_64-unknown-linux-gnu/debug/build/untrusted/a010c55f4c939ac1/out -L dependency=/verif/build/playback-x/x86_64-unknown-linux-gnu/debug/build/zerocopy/efa2c208243efb84/out -L dependency=/verif/build/playback-x/x86_64-unknown-linux-gnu/debug/build/zeroize/4444842b71a295a1/out -L dependency=/verif/build/playback-x/x86_64-unknown-linux-gnu/debug/build/zmij/91739b33de1678fe/out -L dependency=/verif/build/playback-x/debug/build/ntp-proto/674f468bfdacaeac/out -C embed-bitcode=no --cfg 'feature="aws-lc"' --cfg 'feature="default"' --cfg 'feature="rustcrypto"' --check-cfg 'cfg(docsrs,test)' --check-cfg 'cfg(feature, values("__internal-api", "__internal-fuzz", "__internal-test", "arbitrary", "aws-lc", "default", "openssl", "openssl-vendored", "rustcrypto"))' --error-format human` (exit status: 1)
-note: test exited abnormally; to see the full output pass --no-capture to the harness.
-error: /root/.kani/kani-0.68.0/toolchain/bin/cargo exited with status exit status: 1
-
+panicked at /verif/kani/ntp_proto/algorithm/kalman/mod.rs:288:9:
+assertion failed: f >= -max && f <= max
 */
